@@ -1134,6 +1134,33 @@ fn structured(r: &mut Rng, family: Family) -> (Vec<DNode>, &'static str) {
                 _ => DK::Jet(r.usize_below(family.n_jets())),
             })];
             let alt = r.below(4);
+            // two-stage bombs: a complete bomb of medium size (2^5 .. 2^13 nodes) becomes the
+            // leaf of an incomplete one, so that an error has to render many complete sub-types
+            // that each fit a display budget on their own
+            let two_stage = r.chance(1, 3);
+            let (n, stage1) = if two_stage { (r.urange(8, 18), r.urange(4, 13)) } else { (n, 0) };
+            if two_stage {
+                v[0] = leaf(match r.below(3) {
+                    0 => DK::Unit,
+                    1 => DK::Word(r.below(3) as u8),
+                    _ => DK::Jet(r.usize_below(family.n_jets())),
+                });
+                if r.bool() {
+                    v.push(leaf(DK::Unit));
+                    v.push(bin(DK::Pair, 0, 1));
+                }
+                for _ in 0..stage1 {
+                    let top = v.len() - 1;
+                    v.push(bin(DK::Pair, top, top));
+                }
+                let top = v.len() - 1;
+                v.push(leaf(if r.bool() { DK::Witness } else { DK::Iden }));
+                if r.bool() {
+                    v.push(bin(DK::Pair, top + 1, top));
+                } else {
+                    v.push(bin(DK::Pair, top, top + 1));
+                }
+            }
             for i in 0..n {
                 let top = v.len() - 1;
                 if alt == 0 && i % 3 == 2 {
@@ -1142,7 +1169,14 @@ fn structured(r: &mut Rng, family: Family) -> (Vec<DNode>, &'static str) {
                     v.push(bin(DK::Pair, top, top));
                 }
             }
-            match r.below(4) {
+            match if two_stage { r.below(2) * 4 } else { r.below(5) } {
+                4 => {
+                    // a consumer whose source is 1: the bomb's target cannot be unified with it
+                    let top = v.len() - 1;
+                    v.push(leaf(DK::Word(r.below(3) as u8)));
+                    let w = v.len() - 1;
+                    v.push(bin(DK::Comp, top, w));
+                }
                 0 => {
                     // an ill-typed consumer on top: the error mentions the bomb
                     let top = v.len() - 1;
@@ -1166,7 +1200,7 @@ fn structured(r: &mut Rng, family: Family) -> (Vec<DNode>, &'static str) {
                 }
                 _ => {}
             }
-            (v, "type-bomb")
+            (v, if two_stage { "type-bomb-two-stage" } else { "type-bomb" })
         }
         4 => {
             // long comp chains (path halving)
@@ -1485,6 +1519,7 @@ impl Engine for C04 {
             "fault_abandoned_orphans_plans",
             "dags_with_all_orders",
             "family_type_bomb",
+            "family_type_bomb_two_stage",
             "family_occurs_shape",
         ]
     }
